@@ -23,29 +23,29 @@ func TaskNew() int32 {
 		return -1
 	}
 	i := int32(-1)
-	if ntasks < MaxTasks {
-		i = ntasks
-		ntasks++
-	} else {
-		// reuse the slot of a library goroutine that has finished
-		for j := int32(0); j < ntasks; j++ {
-			if tasks[j].child && tasks[j].state == tDone {
-				i = j
-				break
-			}
+	// library goroutines live above the caller slots; finished ones are reused
+	for j := int32(MaxCallers); j < ntasks; j++ {
+		if tasks[j].state == tDone {
+			i = j
+			break
 		}
-		if i < 0 {
-			simFault = "more than MaxTasks goroutines alive in one simulated run"
+	}
+	if i < 0 {
+		if ntasks >= MaxTasks {
+			simFault = "more than MaxTasks goroutines alive in one simulated process"
 			return -1
 		}
+		if ntasks < MaxCallers {
+			ntasks = MaxCallers
+		}
+		i = ntasks
+		ntasks++
 	}
 	p := &tasks[cur]
 	tasks[i] = task{state: tRunnable, op: p.op, fam: p.fam, lastOp: p.lastOp, child: true, prio: p.prio}
 	res.Spawned++
 	progress++
-	// the ticket carries the run generation: the goroutine may first get to run after
-	// this run is over
-	return i | int32(runGen&0x7fff)<<16
+	return i
 }
 
 // TaskEnter parks the new goroutine until the scheduler runs it.
@@ -55,23 +55,17 @@ func TaskEnter(t int32) {
 	if t < 0 {
 		return
 	}
-	slot, g := t&0xffff, int64(t>>16)
-	if g != runGen&0x7fff {
-		for { // its run is over: park for good
-			runtime.Gosched()
-		}
-	}
-	waitTurnGen(slot, runGen)
+	waitTurn(t)
 }
 
 // TaskExit ends a spawned task (deferred; also runs when the goroutine panics).
 //
 //go:norace
 func TaskExit(t int32) {
-	if t < 0 || !active || int64(t>>16) != runGen&0x7fff {
+	if t < 0 || !active {
 		return
 	}
-	taskDone(t & 0xffff)
+	taskDone(t)
 }
 
 // ---- sync.WaitGroup: Wait is the blocking call. The simulator keeps a shadow counter
@@ -432,3 +426,17 @@ func NumCPU() int {
 
 //go:norace
 func simProcsNow() int { return simProcs }
+
+// Background reports how many library goroutines are alive in this process (they persist
+// from run to run).
+//
+//go:norace
+func Background() int {
+	n := 0
+	for i := int32(MaxCallers); i < ntasks; i++ {
+		if tasks[i].state != tDone {
+			n++
+		}
+	}
+	return n
+}
